@@ -98,16 +98,50 @@ def check_opaque(rep, db, f, inst):
     if norm(ret_c) != norm(want):
         rep.violation(rule, site(f), "returns %s, expected the sibling wrapper %s with identical T and sandbox type" % (ret_c, want), f["loc"], inst)
         return
+    size = (db.rec_by_id.get(f.get("rid")) or {}).get("size")
+
+    def root_obj(lv):
+        while isinstance(lv, tuple) and lv and lv[0] in ("fld", "idx"):
+            lv = lv[1]
+        return lv
+
+    how = "bitwise copy"
     for p in ps:
         r = p.retval
-        chain = p.state.mem.get(("copyof", r)) if isinstance(r, tuple) else None
-        if chain != src and r != src:
+        for _ in range(4):
+            c_ = p.state.mem.get(("copyof", r)) if isinstance(r, tuple) else None
+            if c_ is None:
+                break
+            r = c_
+        stores = [(i, e) for i, e in enumerate(p.events) if e.kind == "STORE"]
+        if any(root_obj(e.a) == src for _i, e in stores):
+            rep.violation(rule, site(f), "the conversion modifies the object converted", f["loc"], inst)
+            return
+        if r == src:
+            if stores:
+                rep.violation(rule, site(f), "the conversion modifies data", f["loc"], inst)
+                return
+            continue
+        # second idiom: a local result object filled by one whole-object byte copy from the source
+        ok = False
+        if isinstance(r, tuple) and r[:1] in (("var",), ("tmp",)):
+            for i, e in enumerate(p.events):
+                if e.kind == "CALL" and q.short(e.a) in ("memcpy", "memmove", "__builtin_memcpy", "__builtin_memmove") and len(e.b) >= 3:
+                    d, s_, n_ = strip_casts(e.b[0]), strip_casts(e.b[1]), e.b[2]
+                    dst_ok = d[:1] == ("addr",) and root_obj(d[1]) == r and d[1] in (r, ("fld", r, "data"))
+                    src_ok = s_[:1] == ("addr",) and s_[1] in (src, ("fld", src, "data")) or (s_ == ("this",) and src == THIS_OBJ)
+                    if dst_ok and src_ok:
+                        if n_ != C(size):
+                            rep.violation(rule, site(f), "the result is filled with a byte copy of %s bytes; the object converted occupies %s bytes" % (fmt(n_), size), e.loc, inst)
+                            return
+                        if any(j > i and root_obj(e2.a) == r for j, e2 in stores):
+                            break
+                        ok = True
+                        how = "whole-object byte copy"
+        if not ok:
             rep.violation(rule, site(f), "the object returned is not a bitwise copy of the object converted (%s)" % fmt(r), f["loc"], inst)
             return
-        if any(e.kind == "STORE" for e in p.events):
-            rep.violation(rule, site(f), "the conversion modifies data", f["loc"], inst)
-            return
-    rep.ok(rule, site(f), "bitwise copy typed as %s" % want[:80], inst)
+    rep.ok(rule, site(f), "%s typed as %s" % (how, want[:80]), inst)
 
 
 def check_cast(rep, db, f, inst):
